@@ -3,7 +3,8 @@
 # extension built from the current rust sources and the property text (nothing from /verif besides that text).
 P=$1; S=$2; WT=/tmp/seed-$P-$S
 git -C /repo worktree add --detach $WT HEAD >/dev/null 2>&1 || exit 1
-cp /verif/.cache/native/*/_lang.abi3.so $WT/src/basilisp/_lang.abi3.so
+SO=$(/venv/bin/python -c "import sys; sys.path.insert(0,'/verif'); from sim import bootstrap as B; print(B.ensure_native(verbose=False))" 2>/dev/null | tail -1)   # built from /repo's CURRENT rust sources
+cp "$SO" $WT/src/basilisp/_lang.abi3.so
 /venv/bin/python - $P $WT <<'PY'
 import json, sys
 for l in open('/verif/properties.jsonl'):
